@@ -31,8 +31,16 @@
 
 extern TestReporter *create_libxml_reporter(const char *prefix);
 extern void die_in(unsigned int seconds);
+/* the reporters' printer hooks (src/xml_reporter_internal.h, src/libxml_reporter_internal.h): with a
+   printer of the caller's no per-suite file is opened, so the file system's name limits do not end
+   a run with very deep nesting or very long names early */
+typedef int ScnXmlPrinter(FILE *, const char *format, ...);
+extern void set_xml_reporter_printer(TestReporter *reporter, ScnXmlPrinter *printer);
+extern void set_libxml_reporter_printer(TestReporter *reporter, int (*printer)(void *doc));
+static int discard_xml(FILE *f, const char *format, ...) { (void)f; (void)format; return 0; }
+static int discard_doc(void *doc) { (void)doc; return 0; }
 
-#define MAXS 128
+#define MAXS 2048
 #define MAXT 4096
 #define MAXA 65536
 
@@ -259,6 +267,8 @@ int main(int argc, char **argv) {
     else if (!strcmp(reporter_kind, "xml")) rep = create_xml_reporter("out");
     else if (!strcmp(reporter_kind, "libxml")) rep = create_libxml_reporter("out");
     else if (!strcmp(reporter_kind, "cdash")) rep = create_cdash_reporter(&cinfo);
+    else if (!strcmp(reporter_kind, "xmlp")) { rep = create_xml_reporter("out"); if (rep) set_xml_reporter_printer(rep, discard_xml); }
+    else if (!strcmp(reporter_kind, "libxmlp")) { rep = create_libxml_reporter("out"); if (rep) set_libxml_reporter_printer(rep, discard_doc); }
     else return 98;
     if (!rep) { fprintf(stderr, "scn_driver: no reporter\n"); return 98; }
     orig_finish_test = rep->finish_test; rep->finish_test = probe_finish_test;
